@@ -34,7 +34,7 @@ TRUSTED = [
 ]
 ASSUMPTIONS = [
     'templates come from the directive grammar of harness/gen_templates.py (every case is checked for grammar '
-    'membership before it is judged), rendered with lookup="lenient"',
+    'membership before it is judged), rendered with lookup="strict" (the default) or "lenient"',
     'expressions stay in the mini language; `not` is never an operand of == or the base of an index (genshi drops those '
     'parentheses: C03/C13 defect, outside this property); names avoid Python builtins',
     'directive elements (<py:for> ...) carry no further py: attributes (known finding C04-direlem-attrs)',
@@ -245,8 +245,12 @@ def defined_names(nodes):
 CHECKS = ['elemform', 'replace', 'for', 'if', 'with', 'choose', 'scope', 'doc']
 
 
-def real(lang, nodes, data):
-    return G.render_real(lang, nodes, data)
+def lookup_of(case):
+    return case.get('lookup', 'lenient')
+
+
+def real(lang, nodes, data, lookup='lenient'):
+    return G.render_real(lang, nodes, data, lookup=lookup)
 
 
 def same(a, b):
@@ -269,22 +273,23 @@ def oracle_case(case, doc=None):
 
     if case['check'] == 'raw':
         # a template given by its source (shapes the AST cannot express) with the documented output
-        got = real_raw(case['lang'], [['raw', case['source']]], case['data'])
+        got = real_raw(case['lang'], [['raw', case['source']]], case['data'], lookup_of(case))
         if got[0] != 'invalid' and got != case['expected']:
             return bad(case.get('what', 'documented output'), case['expected'], got)
         return None
     lang, nodes, data, check = case['lang'], case['nodes'], case['data'], case['check']
-    if not (G.valid_nodes(nodes, lang) and G.valid_data(data)):
+    if not (G.valid_nodes(nodes, lang) and G.valid_data(data)) or lookup_of(case) not in ('strict', 'lenient'):
         return None          # not a case of the grammar (shrinking went too far)
     if lang == 'oldtext' and G.fix_old(nodes)[0] != nodes:
         return None
 
-    base = real(lang, nodes, data)
+    lk = lookup_of(case)
+    base = real(lang, nodes, data, lk)
     if check == 'elemform':
         other = t_elem_form(nodes)
         if other == nodes:
             return None
-        r2 = real(lang, other, data)
+        r2 = real(lang, other, data, lk)
         if not same(base, r2):
             return bad('attribute form = element form in the documented processing order', r2, base,
                        other_source=G.source(lang, other))
@@ -292,7 +297,7 @@ def oracle_case(case, doc=None):
         other = t_replace(nodes)
         if other == nodes:
             return None
-        r2 = real(lang, other, data)
+        r2 = real(lang, other, data, lk)
         # content + strip keeps the element alive for py:attrs / the strip condition, which py:replace
         # (by the attribute = element form equivalence) never evaluates: where only that evaluation
         # fails the two are not comparable
@@ -308,7 +313,7 @@ def oracle_case(case, doc=None):
             other, _ = G.fix_old(other)
             if G.to_oldtext(other).count('\n') != G.to_oldtext(nodes).count('\n') and check != 'with':
                 pass
-        r2 = real(lang, other, data)
+        r2 = real(lang, other, data, lk)
         what = {'for': 'a loop = its unrolled body with the loop variable bound by py:with',
                 'if': 'a false py:if removes the element, a true one is transparent',
                 'with': 'py:with a=..; b=.. = nested single bindings',
@@ -326,9 +331,9 @@ def oracle_case(case, doc=None):
         defs = defined_names(nodes)
         names = sorted(set(G.VARS + ['it', 'p']) - defs)
         # one probe for all names: is it defined, and what does it render as
-        probe = [['raw', ''.join("[${defined('%s')}|${%s}]" % (nm, nm) for nm in names)]]
-        alone = real_raw(lang, probe, data)
-        both = real_raw(lang, nodes + probe, data)
+        probe = [['raw', ''.join("[${defined('%s')}|${value_of('%s')}]" % (nm, nm) for nm in names)]]
+        alone = real_raw(lang, probe, data, lk)
+        both = real_raw(lang, nodes + probe, data, lk)
         if alone[0] == 'invalid' or both[0] == 'invalid':
             return None
         if alone[0] != 'ok' or both[0] != 'ok':
@@ -349,7 +354,7 @@ def oracle_case(case, doc=None):
     return None
 
 
-def real_raw(lang, nodes, data):
+def real_raw(lang, nodes, data, lookup='lenient'):
     """like G.render_real but the node list may hold ['raw', source] probes"""
     cls = G.template_class(lang)
     raws = [n for n in nodes if n[0] == 'raw']
@@ -363,7 +368,7 @@ def real_raw(lang, nodes, data):
     try:
         with warnings.catch_warnings():
             warnings.simplefilter('ignore')
-            tmpl = cls(src, lookup='lenient')
+            tmpl = cls(src, lookup=lookup)
     except Exception as e:   # noqa
         return ['err', type(e).__name__]
     try:
@@ -414,9 +419,25 @@ def model_exact(ans, lang):
     return ev
 
 
+def strictify(w):
+    """names are looked up strictly: V -> SV throughout a wire value"""
+    if isinstance(w, list):
+        if w and isinstance(w[0], Atom) and w[0] == 'V' and len(w) == 2:
+            return [Atom('SV'), w[1]]
+        if w and isinstance(w[0], Atom) and w[0] == 'IX' and len(w) == 3:
+            return [Atom('SIX'), strictify(w[1]), strictify(w[2])]
+        return [strictify(x) for x in w]
+    return w
+
+
 def model_lines(verb, cases):
-    return [proto.line(Atom('C04'), Atom(verb), Atom(c['lang']), FUEL, G.nodes_w(c['nodes']), G.data_w(c['data']))
-            for c in cases]
+    out = []
+    for c in cases:
+        nodes = G.nodes_w(c['nodes'])
+        if lookup_of(c) == 'strict':
+            nodes = strictify(nodes)
+        out.append(proto.line(Atom('C04'), Atom(verb), Atom(c['lang']), FUEL, nodes, G.data_w(c['data'])))
+    return out
 
 
 def doc_answers(cases):
@@ -441,7 +462,7 @@ def impl_answers(cases, exact=False):
 def expr_of_w(v):
     """wire expression (as decoded by proto.dec) -> JSON expression of gen_templates"""
     k = str(v[0])
-    if k == 'V':
+    if k in ('V', 'SV'):
         return ['v', v[1]]
     if k == 'N':
         return ['n']
@@ -455,8 +476,8 @@ def expr_of_w(v):
         return ['l', [expr_of_w(a) for a in v[1:]]]
     if k == 'D':
         return ['d', [[kv[0], expr_of_w(kv[1])] for kv in v[1:]]]
-    if k in ('EQ', 'IX'):
-        return [k.lower(), expr_of_w(v[1]), expr_of_w(v[2])]
+    if k in ('EQ', 'IX', 'SIX'):
+        return [k.lower().replace('six', 'ix'), expr_of_w(v[1]), expr_of_w(v[2])]
     if k in ('NOT', 'LEN'):
         return [k.lower(), expr_of_w(v[1])]
     if k == 'CALL':
@@ -547,9 +568,9 @@ def real_stream(stream):
     return out
 
 
-def prepared_real(lang, nodes):
+def prepared_real(lang, nodes, lookup='lenient'):
     try:
-        tmpl = G.template_class(lang)(G.source(lang, nodes), lookup='lenient')
+        tmpl = G.template_class(lang)(G.source(lang, nodes), lookup=lookup)
         st = real_stream(tmpl.stream)
     except Exception as e:   # noqa
         return ['err', type(e).__name__]
@@ -635,7 +656,8 @@ def gen_case(rng, i):
         nodes = G.gen_template(rng, lang, size=rng.choice([6, 10, 14, 20]), depth=rng.choice([2, 3, 3, 4]),
                                replace_mix=True)
     data = G.gen_data(rng)
-    return {'lang': lang, 'nodes': nodes, 'data': data}
+    # the engine's default is strict lookup (an unbound name raises); lenient makes it an Undefined value
+    return {'lang': lang, 'nodes': nodes, 'data': data, 'lookup': rng.choice(['strict', 'lenient'])}
 
 
 def features(case):
@@ -663,7 +685,7 @@ def nontrivial_key(case, base):
         nd += len(n[3]) if n[0] == 'el' else (1 if n[0] == 'd' else 0)
     if nd < 2:
         return None
-    return json.dumps([case['lang'], case['nodes'], case['data']], sort_keys=True)
+    return json.dumps([case['lang'], case.get('lookup', 'lenient'), case['nodes'], case['data']], sort_keys=True)
 
 
 def applicable_checks(case):
@@ -690,14 +712,15 @@ def shard(arg):
     for c, pm in zip(cases, preps):
         if pm is None:
             continue
-        pr = prepared_real(c['lang'], c['nodes'])
+        pr = prepared_real(c['lang'], c['nodes'], lookup_of(c))
         res.streams['prepared-stream'] = res.streams.get('prepared-stream', 0) + 1
         if pr != pm:
             res.disagreements.append({'stream': 'prepared-stream', 'case': c, 'model': repr(pm)[:800],
                                       'real': repr(pr)[:800], 'source': G.source(c['lang'], c['nodes'])})
     for c, doc, (impl, impl_ex) in zip(cases, docs, impls):
         real_ex = []
-        base = G.render_real(c['lang'], c['nodes'], c['data'], exact=real_ex)
+        base = G.render_real(c['lang'], c['nodes'], c['data'], lookup=lookup_of(c), exact=real_ex)
+        res.count('lookup:' + lookup_of(c))
         res.evaluations += 1
         res.count('lang:' + c['lang'])
         res.count('real:' + (base[0] if base[0] == 'ok' else base[1]))
